@@ -133,9 +133,9 @@ def run(ck, facts):
         elif cmp_norm(cs):
             op, a, bb_ = cmp_norm(cs)
             if is_needed_len(a) and sym_is_field(bb_, is_self, "cap"):
-                kind = "capcheck"
+                kind = "capcheck" if op == "Gt" else "capcheck-off-by-one"      # needed > cap  => must grow
             elif sym_is_field(a, is_self, "cap") and is_needed_len(bb_):
-                kind = "capok"  # cap >= needed  (inverse polarity)
+                kind = "capok" if op == "Ge" else "capok-off-by-one"            # cap >= needed => fits (inverse polarity)
             else:
                 kind = "othercmp"
         elif isinstance(cs, tuple) and cs[0] == "call" and isinstance(cs[1], tuple) and cs[1][0] == "indirect":
@@ -191,6 +191,9 @@ def run(ck, facts):
     kinds = [v[0] for v in sw.values()]
     ck.expect("capcheck" in kinds or "capok" in kinds, "R1", "write_str/capacity-test", "capacity test present",
               "no branch compares self.len + s.len() with self.cap; conditions: %s" % [sym_show(v[1]) for v in sw.values()], C.loc(ws))
+    if any(k.endswith("off-by-one") for k in kinds):
+        ck.bad("R1", "write_str/capacity-test-exact", "the capacity test is not exactly `len + s.len() > cap` (found %s): a chunk that exactly fills the remaining capacity is refused "
+               "(fixed buffers: output truncated although it fits) or a chunk one byte too long is accepted" % [sym_show(v[1]) for v in sw.values() if v[0].endswith("off-by-one")], C.loc(ws))
     if any(k == "growres-badargs" for k in kinds):
         ck.bad("R1", "write_str/grow-args", "grow is not called with (self, len + s.len())", C.loc(ws))
 
